@@ -8,7 +8,12 @@
 use crate::engine::*;
 use crate::replay::Replayer;
 use riti::config::Config;
-use riti::context::RitiContext;
+/// The context behind the C interface is an opaque pointer here (its Rust type is never named: the harness keeps building
+/// when the type's signature changes).
+#[repr(C)]
+pub struct RitiContext {
+    _opaque: [u8; 0],
+}
 use riti::suggestion::Suggestion;
 use serde_json::{json, Value};
 use std::collections::HashMap;
